@@ -92,6 +92,9 @@ def _binop(op, l, r):
         return l ** r
     if isinstance(op, ast.MatMult):
         return l * r
+    _B = sp.logic.boolalg.Boolean
+    if isinstance(op, (ast.BitAnd, ast.BitOr)) and all(isinstance(x, (_B, bool)) for x in (l, r)):
+        return sp.And(l, r) if isinstance(op, ast.BitAnd) else sp.Or(l, r)
     raise Unsupported("operator %s" % type(op).__name__)
 
 
@@ -382,6 +385,8 @@ class Sym:
                 return -v
             if isinstance(n.op, ast.UAdd):
                 return v
+            if isinstance(n.op, (ast.Invert, ast.Not)) and (v in (sp.true, sp.false, True, False) or isinstance(v, sp.logic.boolalg.Boolean)):
+                return sp.Not(v)
             raise Unsupported("unary %s" % norm(n))
         if isinstance(n, (ast.Tuple, ast.List)):
             return tuple(self.expr(e, env, func, depth) for e in n.elts)
@@ -407,6 +412,8 @@ class Sym:
         s = n.slice
         if isinstance(base, tuple) and isinstance(s, ast.Constant) and isinstance(s.value, int):
             return base[s.value]
+        if isinstance(s, ast.Tuple) and not s.elts:
+            return base            # x[()] : the element of a 0-d array
         if "subscript" in self.hooks:
             r = self.hooks["subscript"](base, n, self, env, func, depth)
             if r is not NotImplemented:
@@ -589,7 +596,14 @@ class Sym:
             return sp.Matrix([a[i, i] for i in range(min(a.rows, a.cols))])
         if last == "clip" and len(args) == 3:
             return sp.Max(args[1], sp.Min(args[2], args[0]))
+        if last == "isnan" and len(args) == 1:
+            # a term over real symbols is a number; NaN only when it is literally nan
+            return sp.true if args[0] is sp.nan or (hasattr(args[0], "has") and args[0].has(sp.nan)) else sp.false
         if last == "where" and len(args) == 3:
+            if args[0] in (sp.true, True):
+                return args[1]
+            if args[0] in (sp.false, False):
+                return args[2]
             return sp.Piecewise((args[1], args[0]), (args[2], True))
         if last in ("maximum", "fmax") and len(args) == 2:
             return sp.Max(*args)
